@@ -46,7 +46,8 @@ def _names(rng, n):
     while len(out) < n:
         if rng.random() < 0.04:
             # unusual but legal (structurally typed) names: empty, blank, digits only, inner blanks
-            nm = rng.choice(["", " ", "0", "core 0", "-", "A b", "a  b", "u" * 95, "Stage " * 16 + "x", "{}", "{{f}}", "$u", "%s"])
+            nm = rng.choice(["", " ", "0", "core 0", "-", "A b", "a  b", "u" * 95, "Stage " * 16 + "x", "{}", "{{f}}", "$u", "%s",
+                             "any", "*", "all", "none", "default", "a,b", "a|b", "a:b", "x=1", "#1", "~", "null", "true"])
         else:
             nm = rng.choice("abcxyzABQ") + rng.choice(["", str(rng.randint(0, 20))]) + rng.choice(["", "", "u", "X"])
         if nm.lower() not in used:
@@ -412,6 +413,16 @@ def gen_desc(rng, family):
         units, edges = shape_tiny(rng)
     else:
         units, edges = shape_random(rng)
+    if rng.random() < 0.08:
+        # a capability whose NAME looks like a wildcard or a list in richer description languages: here it is a plain name
+        pool = sorted({c for u in units for c in u["caps"]})
+        if pool:
+            old, new = rng.choice(pool), rng.choice(["any", "*", "Any", "all", "none", "ALU,MEM", "a|b", "a,b", "default", "0"])
+            if new.lower() not in {c.lower() for c in pool}:
+                for u in units:
+                    u["caps"] = [new if c == old else c for c in u["caps"]]
+                    u["acl"] = [new if c == old else c for c in u["acl"]]
+                tags.append("odd-capability-name")
     desc = render(rng, units, edges)
     if rng.random() < 0.03 and desc["units"]:
         # a non-integral width, as YAML `width: 0.5` / `1.5` gives (outside the Lean model: judged by `evaluate_fractional`)
@@ -502,6 +513,22 @@ def run_load(desc):
     # ... and the connections may come as a one-shot iterable (zip of two columns, a generator): read them once
     if isinstance(arg, dict) and isinstance(arg.get("dataPath"), list) and len(json.dumps(desc)) % 7 in (3, 4):
         arg["dataPath"] = iter(arg["dataPath"]) if len(json.dumps(desc)) % 7 == 3 else (e for e in list(arg["dataPath"]))
+    if isinstance(arg, dict) and isinstance(arg.get("units"), (list, tuple)) and arg["units"] and len(json.dumps(desc)) % 4 == 1 \
+            and isinstance(arg.get("dataPath"), list):        # (not with a one-shot iterable of connections: it can be read once)
+        # a history on ONE description object: it is loaded with other content first (a width changed, a capability
+        # dropped), edited back in place, and loaded again — the second load is the one judged (seeded change C10-16: a
+        # result cache remembering description objects by identity)
+        u0 = arg["units"][0]
+        if isinstance(u0, dict) and isinstance(u0.get("width"), int) and isinstance(u0.get("capabilities"), list):
+            w, caps = u0["width"], u0["capabilities"]
+            u0["width"] = w + 1
+            u0["capabilities"] = list(caps[:-1]) if len(caps) > 1 else list(caps)
+            try:
+                with core.watchdog(TIMEOUT):
+                    processor_utils.load_proc_desc(arg)
+            except Exception:  # noqa: BLE001 - the outcome of the earlier load is not what is judged here
+                pass
+            u0["width"], u0["capabilities"] = w, caps
     try:
         with core.watchdog(TIMEOUT):
             p = processor_utils.load_proc_desc(arg)
